@@ -34,7 +34,7 @@ SHARDS = {"quick": 8, "thorough": 16}
 TIMEOUT = {"quick": 400, "thorough": 3400}
 FLOORS = {"oracle.control_request_answered": 300, "oracle.data_rejected_when_not_selected": 60,
           "oracle.data_delivered_when_selected": 60, "oracle.state_samples": 1500, "race.rounds": 20,
-          "histories.passive": 30, "histories.active": 30}
+          "histories.passive": 30, "histories.active": 30, "oracle.reply_routing_vs_selected_state": 20}
 
 NC, NS, SEL = "NOT_CONNECTED", "CONNECTED_NOT_SELECTED", "CONNECTED_SELECTED"
 REQ_RSP = {wire.SELECT_REQ: wire.SELECT_RSP, wire.DESELECT_REQ: wire.DESELECT_RSP, wire.LINKTEST_REQ: wire.LINKTEST_RSP}
@@ -46,7 +46,8 @@ class Run:
 
         self.ctx = ctx
         self.active = active
-        self.rig = Rig(active=active, t6=t6, t3=2.0)
+        self.rig = Rig(active=active, t6=t6, t3=1.0)
+        self.open_req = None
         self.model = {NC}          # set of admissible states
         self.hist = []
         self.sysgen = itertools.count(0x10000 + ctx.rng.randrange(1 << 20) * 16)
@@ -126,6 +127,7 @@ class Run:
         self.check_state("connect")
 
     def ev_peer_close(self):
+        self.open_req = None
         self.hist.append("peer_close")
         self.rig.pipe.peer_close()
         if not self.rig.pipe.wait_closed(5.0):
@@ -137,6 +139,7 @@ class Run:
         self.check_state("peer_close")
 
     def ev_disable_enable(self):
+        self.open_req = None
         self.hist.append("disable+enable")
         done = threading.Event()
 
@@ -256,6 +259,66 @@ class Run:
                     self.violation(f"data-while-not-selected-not-rejected-once:{kind}", frames=[f.describe() for f in mine])
         self.check_state("data")
 
+    def ev_open_request(self):
+        """The application has a request outstanding (its reply will be injected by a later event)."""
+        import secsgem.secs.functions as F
+
+        if getattr(self, "open_req", None) is not None:
+            return
+        box = {}
+        done = threading.Event()
+
+        @stuck.harness_thread
+        def run():
+            try:
+                box["r"] = self.rig.protocol.send_and_waitfor_response(F.SecsS01F01())
+            except Exception as exc:
+                box["exc"] = repr(exc)
+            done.set()
+        n0 = len(self.rig.pipe.all_frames())
+        th = threading.Thread(target=run, daemon=True, name="harness-requester")
+        th.start()
+        self.rig.wait(lambda: any(f.stype == wire.DATA and (f.stream, f.function) == (1, 1) for _, f in self.rig.pipe.all_frames()[n0:]), 2.0)
+        reqs = [f for _, f in self.rig.pipe.all_frames()[n0:] if f.stype == wire.DATA and (f.stream, f.function) == (1, 1)]
+        self.new_frames()
+        if len(reqs) != 1:
+            done.wait(3.0)
+            return
+        self.hist.append(f"app request S1F1W({reqs[0].system:#x}) outstanding")
+        self.open_req = {"system": reqs[0].system, "box": box, "done": done}
+
+    def ev_reply_to_open_request(self):
+        req = getattr(self, "open_req", None)
+        if req is None or req["done"].is_set():
+            self.open_req = None
+            return
+        selected = self.model == {SEL}
+        system = req["system"]
+        self.hist.append(f"reply S1F2({system:#x}) to the outstanding request")
+        self.rig.pipe.feed(wire.hsms_data(1, 2, False, system, b"\x01\x00"))
+        self.injected_connected += 1
+        req["done"].wait(4.0)
+        self.rig.quiesce(1.0)
+        frames = self.new_frames()
+        delivered = [m for m in self.new_delivered() if m["system"] == system]
+        box = req["box"]
+        self.open_req = None
+        got = box.get("r")
+        self.ctx.count("oracle.reply_routing_vs_selected_state")
+        if "exc" in box:
+            self.violation("outstanding-request-raises", error=box["exc"])
+            return
+        if selected:
+            if got is None or got.header.system != system or delivered:
+                self.violation("reply-in-SELECTED-not-returned-to-its-requester", returned=got is not None, delivered_to_app=len(delivered))
+        else:
+            if got is not None or delivered:
+                self.violation("data-delivered-while-not-selected:reply-to-outstanding-request", returned=got is not None, delivered_to_app=len(delivered))
+                return
+            rej = [f for f in frames if f.stype == wire.REJECT_REQ and f.system == system]
+            if len(rej) != 1 or rej[0].byte3 != 4:
+                self.violation("data-while-not-selected-not-rejected-once:reply-to-outstanding-request", frames=[f.describe() for f in frames if f.system == system])
+
     def ev_linktest_timer(self, answer):
         timers = vtime.pending(kind="_on_linktest_timer", owner=self.rig.protocol)
         if not timers:
@@ -296,6 +359,15 @@ def _history(ctx, active, length):
             run.model = {NC}
             continue
         r = rng.random()
+        if run.open_req is not None:
+            # an application request is outstanding: change the session state under it and/or deliver its reply
+            q = rng.random()
+            if q < 0.40:
+                run.ev_reply_to_open_request()
+                continue
+            if q < 0.65:
+                rng.choice([lambda: run.ev_control_req(wire.DESELECT_REQ), run.ev_separate, lambda: run.ev_control_req(wire.SELECT_REQ)])()
+                continue
         if r < 0.06:
             run.ev_peer_close()
         elif r < 0.10:
@@ -310,6 +382,10 @@ def _history(ctx, active, length):
             run.ev_separate()
         elif r < 0.56:
             run.ev_unsolicited_rsp(rng.choice([wire.SELECT_RSP, wire.DESELECT_RSP, wire.LINKTEST_RSP, wire.REJECT_REQ]))
+        elif r < 0.66 and run.model == {SEL}:
+            run.ev_open_request()
+        elif r < 0.68:
+            run.ev_reply_to_open_request()
         elif r < 0.94:
             run.ev_data(rng.choice(["header_only", "header_only", "uncatalogued", "undecodable"]), rng.random() < 0.5)
         else:
